@@ -13,7 +13,7 @@
 (* map (function -> the one pointer that may denote it) and the set of     *)
 (* node contents (unique-table abstraction).                               *)
 (***************************************************************************)
-EXTENDS Diagrams, Counting, TLC
+EXTENDS Diagrams, Counting, Bignum, TLC
 
 CONSTANT K,                      \* number of pool slots (0 = True, 1 = False are fixed)
          Enforce                 \* the property ids whose conjuncts are enforced in this run
@@ -105,6 +105,11 @@ Produce(e) ==
             /\ UNCHANGED canon
        ELSE IF d \in DOMAIN canon THEN Req("C02", canon[d] = e.root) /\ UNCHANGED canon
             ELSE canon' = canon @@ (d :> e.root)
+  \* C16: the twin builder (tiny lossy apply cache, same program) returned the same canonical diagram
+  /\ IF "tev" \in DOMAIN e
+       THEN Req("C16", /\ e.tev = e.ev /\ e.ta = e.a /\ "troot" \in DOMAIN e
+                       /\ e.troot = e.root /\ e.tnodes = e.nodes)
+       ELSE TRUE
   \* C10: no scratch left behind
   /\ Req("C10", e.dirty = << >>)
   /\ node' = nd2
@@ -119,6 +124,49 @@ Produce(e) ==
 (* function of (denotation, parameters) only - or, for count_nodes, of the *)
 (* immutable structure.                                                    *)
 (***************************************************************************)
+(***************************************************************************)
+(* C11: the semantic hash is a function of the denotation; hash(~f) =       *)
+(* 1 - hash(f) mod P; cached = recomputed; at a small prime the defining    *)
+(* sum is recomputed natively.                                              *)
+(***************************************************************************)
+HashOK(e) ==
+  LET f == D(e, 1) IN
+  IF e.p = "32749"
+  THEN /\ Normalised("ff", 32749, e.w, 0, nvars)
+       /\ <<e.val>> = Comps(WMC("ff", 32749, f, e.w, 0, nvars), 0)
+  ELSE LET P == PrimeLimbs(e.p)
+           s == LAdd(e.limbs, e.nlimbs)
+       IN /\ IsLimbs(e.limbs) /\ IsLimbs(e.nlimbs)
+          /\ LLess(e.limbs, P) /\ LLess(e.nlimbs, P)
+          /\ (s = <<1>> \/ s = LAdd(P, <<1>>))                       \* h + h' = 1 (mod P)
+          /\ (IF <<e.p, f>> \in DOMAIN hashes THEN hashes[<<e.p, f>>] = e.limbs ELSE TRUE)
+          /\ (IF <<e.p, Neg(f)>> \in DOMAIN hashes THEN hashes[<<e.p, Neg(f)>>] = e.nlimbs ELSE TRUE)
+          /\ (IF "climbs" \in DOMAIN e THEN e.climbs = e.limbs ELSE TRUE)
+HashUpd(e) ==
+  IF e.p = "32749" THEN hashes
+  ELSE LET f == D(e, 1) IN (<<e.p, f>> :> e.limbs) @@ (<<e.p, Neg(f)>> :> e.nlimbs) @@ hashes
+
+(***************************************************************************)
+(* C12: marginal MAP / MEU / branch and bound return the optimum over all  *)
+(* assignments of the query variables and a model attaining it.            *)
+(***************************************************************************)
+QSet(e) == {e.q[i] : i \in 1 .. Len(e.q)}
+RestrictTo(f, Q, T) == {a \in f : \A v \in Q : Bit(a, v) = (v \in T)}
+RECURSIVE CondAll(_, _, _, _)
+CondAll(f, q, T, i) == IF i > Len(q) THEN f ELSE CondAll(Cond(f, q[i], q[i] \in T), q, T, i + 1)
+Score(e, T) ==
+  IF e.sr = "real"
+  THEN Comps(WMC("real", 0, RestrictTo(D(e, 1), QSet(e), T), e.w, e.wexp, nvars), nvars * e.wexp)[1]
+  ELSE Comps(UWmc("eu", 0, CondAll(D(e, 1), e.q, T, 1), ord, e.w, e.wexp), nvars * e.wexp)[2]
+OptOK(e) ==
+  LET Q == QSet(e)
+      scores == [T \in SUBSET Q |-> Score(e, T)]
+      best == CHOOSE b \in {scores[T] : T \in SUBSET Q} : \A T \in SUBSET Q : scores[T] <= b
+      mT == {v \in Q : e.model[v + 1] = 1}
+  IN /\ e.val[IF e.sr = "real" THEN 1 ELSE 2] = best
+     /\ \A v \in Q : e.model[v + 1] \in {0, 1}                     \* complete on the query variables
+     /\ scores[mT] = best                                            \* and attains the optimum
+
 QueryOK(e) ==
   LET f == D(e, 1)  r == root[e.a[1]] IN
   CASE e.ev = "eq" -> Req("C02", e.val = (den[e.a[1]] = den[e.a[2]]))
@@ -138,9 +186,17 @@ QueryOK(e) ==
          /\ e.val = Comps(UWmc(e.sr, e.p, f, ord, e.w, e.wexp), nvars * e.wexp)
          /\ ("den" \in DOMAIN e) => e.den = 1
          /\ ("tail0" \in DOMAIN e) => e.tail0)
+    [] e.ev = "semhash" -> Req("C11", HashOK(e))
+    [] e.ev \in {"mmap", "meu", "bb"} -> Req("C12", OptOK(e))
 
 Query(e) ==
   /\ QueryOK(e)
+  /\ IF "tev" \in DOMAIN e
+       THEN Req("C16", /\ e.tev = e.ev /\ e.ta = e.a
+                       /\ (IF "val" \in DOMAIN e THEN "tval" \in DOMAIN e /\ e.tval = e.val ELSE TRUE)
+                       /\ (IF "root" \in DOMAIN e THEN "troot" \in DOMAIN e /\ e.troot = e.root /\ e.tnodes = e.nodes ELSE TRUE))
+       ELSE TRUE
   /\ Req("C10", e.dirty = << >>)
-  /\ UNCHANGED bvars
+  /\ hashes' = (IF e.ev = "semhash" THEN HashUpd(e) ELSE hashes)
+  /\ UNCHANGED <<nvars, ord, node, root, den, loose, canon, contents>>
 =============================================================================
